@@ -162,14 +162,15 @@ PROFILES.update({
                          "numprocesses"], "stubborn": 0.6, "partial": 0.5, "steps": 20},
     "events": {"cmds": ["incr", "decr", "set_np", "reload", "kill", "stop", "start", "restart"], "kcall_deaths": 0.5,
                "steps": 30},
-    "excl": {"cmds": ["start", "stop", "restart", "reload", "incr", "decr", "set_np", "kill"], "partial": 0.7,
+    "excl": {"cmds": ["start", "stop", "restart", "reload", "incr", "decr", "set_np", "set_opt", "set_opt", "kill"], "stubborn": 0.5, "partial": 0.7,
              "hooks": ["before_start", "after_start", "before_spawn"], "faults": 0.2, "singleton": True,
              "deaths": False, "steps": 20},
     "hooks": {"sigkill": 0.35, "sighook": 0.4, "hooks": HOOK_NAMES[:8], "cmds": ["start", "stop", "restart", "signal", "kill", "reload"],
               "stubborn": 0.5, "steps": 16},
     "signals": {"watchers": 3, "stop_children": True, "fork": 0.25, "anypid": 0.7, "cmds": ["signal", "signal", "kill", "stop", "incr"],
                 "steps": 18},
-    "boot": {"watchers": 4, "autostart": True, "patterns": 0.5, "cmds": ["restart", "start", "stop"], "steps": 8, "kcall_deaths": 0.6,
+    "boot": {"watchers": 4, "autostart": True, "patterns": 0.5, "hooks": ["before_spawn", "after_spawn"], "slowhooks": 0.8,
+             "Ws": [0.1, 0.2, 0.3], "cmds": ["restart", "start", "stop"], "steps": 8, "kcall_deaths": 0.6,
              "check_delays": [1.0, 2.0]},
     "shutdown": {"dsig": 0.5, "cmds": ["quit", "stop", "restart", "incr", "kill", "status"], "stubborn": 0.4,
                  "partial": 0.4, "steps": 14, "xprobe": False},
